@@ -57,7 +57,14 @@ impl ISocketConnection for ScaConnectionIface {
         return Err(ZmqError::ResourceLimitReached);
       }
       Err(TrySendError::Full(returned_fb)) => {
-        let timeout_duration = self.sndtimeo.unwrap_or(Duration::from_secs(30));
+        // SNDTIMEO = -1 (None) means wait until there is room, not "30 seconds".
+        let Some(timeout_duration) = self.sndtimeo else {
+          return self
+            .pipe_sender
+            .send(returned_fb)
+            .await
+            .map_err(|_| ZmqError::ConnectionClosed);
+        };
         return match timeout(timeout_duration, self.pipe_sender.send(returned_fb)).await {
           Ok(Ok(())) => Ok(()),
           Ok(Err(_)) => Err(ZmqError::ConnectionClosed),
@@ -83,7 +90,14 @@ impl ISocketConnection for ScaConnectionIface {
         return Err(ZmqError::ResourceLimitReached);
       }
       Err(TrySendError::Full(returned_msgs)) => {
-        let timeout_duration = self.sndtimeo.unwrap_or(Duration::from_secs(30));
+        // SNDTIMEO = -1 (None) means wait until there is room, not "30 seconds".
+        let Some(timeout_duration) = self.sndtimeo else {
+          return self
+            .pipe_sender
+            .send(returned_msgs)
+            .await
+            .map_err(|_| ZmqError::ConnectionClosed);
+        };
         return match timeout(timeout_duration, self.pipe_sender.send(returned_msgs)).await {
           Ok(Ok(())) => Ok(()),
           Ok(Err(_)) => Err(ZmqError::ConnectionClosed),
